@@ -19,6 +19,90 @@ CLAIMS = {
         "formula extraction (reaching definitions + inlining) compared with a specification by random interpretation; wiring/def-use rules over the AST",
         "§4 C01",
     ),
+    "C02": (
+        "Decides the shape of the likelihood recursion (node combine, running log-sum, fold over every child once, agreement of the two "
+        "convolution back ends clause by clause incl. floor-before-log and both maxima added back, bottom-up refresh order, uniform grid prior).",
+        "Not decided: numerical equality with the brute-force sum, accuracy near the floors (runtime quantities). Trusted: numpy/scipy convolution semantics.",
+        "formula extraction + sibling agreement of two implementations; AST ordering rules",
+        "§4 C02",
+    ),
+    "C03": (
+        "Decides every additive term of both joint log-densities and of the FS-CRP prior against a specification written from the statement "
+        "(CRP, marginal and fixed-root topology terms, root-count penalty with c=log 1000, multiplicity over all graph nodes, outlier prior, "
+        "data term, outlier marginals), fused = separate, __eq__/__hash__ built from the same (clades, outliers) key, the clade visitor, "
+        "holder/particle identity, and purity (no writes / randomness) of the ten density functions and the tree queries they use.",
+        "Not decided: that the specification is 'the' FS-CRP; floating-point equality; rustworkx DFS semantics (trusted).",
+        "formula extraction compared with a specification by normal form / random interpretation; effect (purity) summaries",
+        "§4 C03",
+    ),
+    "C04": (
+        "Decides, for the data-point and prune-regraft Gibbs moves, that the selection weights are exactly log_p_one of each candidate "
+        "(nothing added, same density object), that the candidate family is the specified closed family built on copies, that the "
+        "'would empty a clone' guard protects clones only, that the returned tree is the candidate at the drawn index; for the subtree "
+        "move the order of the weight correction around the tree replacement and the re-attachment under the recorded parent; and that a "
+        "move which edits its argument has its result rebound in the run loop.",
+        "Not decided: whether the subtree move needs a term for the random subtree choice (authors' TODO - not claimed); irreducibility; numerics.",
+        "formula / effect extraction with object-update tracking compared with a specification; call-site rule over resolved samplers",
+        "§4 C04",
+    ),
+    "C05": (
+        "Decides the mixture formula of both emission densities (population weights, expected VAF, per-genotype pmf, log-sum), the pmf "
+        "primitives and shared numeric helpers of utils/math.py against specifications over lgamma/log/exp, the genotype table, grid and "
+        "cluster aggregation, outlier prior terms, and the column-to-field mapping of the loader.",
+        "Not decided: that the pmf sums to one numerically; numba typing / fastmath; lgamma accuracy.",
+        "formula extraction compared with a specification by random interpretation; sibling agreement; table agreement",
+        "§4 C05",
+    ),
+    "C09": (
+        "Decides that the order sampler's random primitives and the counting terms of log_count are those of the statement arm by arm "
+        "(every shuffle has its factorial, every interleaving its multinomial/binomial, sizes from the same collections), descendants "
+        "first, outliers interleaved once at top level, bridge shuffle pops from the front of the list its sentinel names, log_pdf = -log_count.",
+        "Not decided: uniformity as a probabilistic fact (follows given a uniform Generator.shuffle, trusted).",
+        "formula and call-sequence extraction compared with a specification",
+        "§4 C09",
+    ),
+    "C13": (
+        "Decides the parameters handed to the Beta, Bernoulli and Gamma draws of the Escobar-West update (and their seeded generator), the "
+        "extraction of K and n from the tree with outliers excluded, storage of the result into the chain's shared prior, and that alpha has "
+        "a single writer which refreshes log(alpha).",
+        "Not decided: scipy's samplers; the Escobar-West mathematics.",
+        "extraction of call arguments (TermFlow) compared with a specification; single-writer rule over the whole program",
+        "§4 C13",
+    ),
+    "C15": (
+        "Decides to_dict/from_dict key agreement and slot-by-slot restoration, slot exhaustiveness of every constructor path of Tree, "
+        "TreeNode, TreeHolder and Particle, the rebuild (payload per clone, holes removed, copies, final update()), self-consistency of a "
+        "trace entry (alpha, log_p_one and tree from the same objects), and what the run loop records and when (thin guard, after all "
+        "moves, relabelling and concentration update; one entry before the loop).",
+        "Not decided: floating-point equality after restore; rustworkx index reuse.",
+        "table agreement, path enumeration over constructors, ordering rules, formula extraction",
+        "§4 C15",
+    ),
+    "C17": (
+        "Decides the two row filters and their order, a row-order taint analysis from the read frames to the five order-sensitive sinks "
+        "(samples, mutation order, per-sample vector, cluster order), the defaults and their guards, that MajorCopyNumberError is raised "
+        "under major < minor and swallowed nowhere up to the command, and the numbering of data points.",
+        "Not decided: pandas semantics (idiom table is an assumption); the excluded degenerate mixes; the optional loss-probability assignment.",
+        "def-use / taint analysis over pandas idioms with a frozen idiom table; exception-path rule over the call chain",
+        "§4 C17",
+    ),
+    "C18": (
+        "Decides that every random draw in product code descends, through an explicit interprocedural def-use walk, from the seeded "
+        "generator or a spawned child; that no other entropy source exists (with an embedded positive fixture); chain isolation in run.run; "
+        "that no hash-seed-ordered iteration over str/object sets reaches the sampler; that completion order and the clock reach only keyed "
+        "storage, prints, the time field and the documented max_time break.",
+        "Not decided: bitwise determinism of numpy/scipy/numba across machines. Element-kind role table (node ids are ints) is an assumption.",
+        "provenance / taint analysis over the whole program (interprocedural def-use, set-type inference)",
+        "§4 C18",
+    ),
+    "C20": (
+        "Decides that exactly one function writes the trace, as one pickle frame of the whole mapping inside one truncating gzip stream, "
+        "after which nothing is added; that each reader performs exactly one pickle.load inside the gzip stream before any use and that no "
+        "handler up to the CLI wrapper swallows a load failure; detectors are kept honest by embedded positive fixtures.",
+        "Trusted: pickle.load raises on a truncated stream and gzip raises on a truncated member (library behaviour, not decided).",
+        "who-may-call / single-writer and handler-path rules over the resolved program, with positive fixtures",
+        "§4 C20",
+    ),
 }
 
 NOT_BUILT_REASON = "check not built yet in this round (planned: see DESIGN.md §4)"
